@@ -92,8 +92,8 @@ func (g *Glyph) encodeCharString(wx, wy int32) []byte {
 				buf, dyb = appendNumber(buf, cmd.Args[3]-posY)
 				buf, dyc = appendNumber(buf, cmd.Args[5]-posY-dyb)
 				buf = appendOp(buf, t1hvcurveto)
-				posX += dxa + dxb
-				posY += dyb + dyc
+				posX = posX + dxa + dxb // in the order in which the decoder adds them up
+				posY = posY + dyb + dyc
 			} else if math.Abs(cmd.Args[0]-posX) < 1e-6 && math.Abs(cmd.Args[5]-cmd.Args[3]) < 1e-6 {
 				var dya, dxb, dyb, dxc float64
 				buf, dya = appendNumber(buf, cmd.Args[1]-posY)
@@ -101,8 +101,8 @@ func (g *Glyph) encodeCharString(wx, wy int32) []byte {
 				buf, dyb = appendNumber(buf, cmd.Args[3]-posY-dya)
 				buf, dxc = appendNumber(buf, cmd.Args[4]-posX-dxb)
 				buf = appendOp(buf, t1vhcurveto)
-				posX += dxb + dxc
-				posY += dya + dyb
+				posX = posX + dxb + dxc
+				posY = posY + dya + dyb
 			} else {
 				var dxa, dxb, dxc, dya, dyb, dyc float64
 				buf, dxa = appendNumber(buf, cmd.Args[0]-posX)
@@ -112,8 +112,8 @@ func (g *Glyph) encodeCharString(wx, wy int32) []byte {
 				buf, dxc = appendNumber(buf, cmd.Args[4]-posX-dxa-dxb)
 				buf, dyc = appendNumber(buf, cmd.Args[5]-posY-dya-dyb)
 				buf = appendOp(buf, t1rrcurveto)
-				posX += dxa + dxb + dxc
-				posY += dya + dyb + dyc
+				posX = posX + dxa + dxb + dxc
+				posY = posY + dya + dyb + dyc
 			}
 		case OpClosePath:
 			buf = appendOp(buf, t1closepath)
